@@ -22,6 +22,11 @@ pub fn gen_cfg() -> GenCfg {
 }
 
 pub fn spec_for(seed: u64, index: u64) -> SysSpec {
+    if index >= c02::PROBE_BASE {
+        // operator probes of C02: a wrong encoding of one operator makes a safe probe fail, and the witness
+        // of that failure cannot be an execution of the system
+        return c02::probe_spec(index - c02::PROBE_BASE).expect("probe index out of range");
+    }
     sysgen::generate(seed, "C03", index, &gen_cfg())
 }
 
@@ -144,7 +149,8 @@ fn judge(rep: &mut Report, p: &mut Proc, spec: &SysSpec, index: u64, solver_seed
 
 fn check_system(rep: &mut Report, seed: u64, index: u64, solver_seed: u64, tier: Tier, p: &mut Proc) {
     let spec = spec_for(seed, index);
-    let kmax = tier.pick(5usize, 9usize);
+    let probe = spec.pattern == "operator-probe";
+    let kmax = if probe { 2 } else { tier.pick(5usize, 9usize) };
     let oracle = {
         let mut ctx = Context::default();
         let sys = spec.build(&mut ctx);
@@ -177,7 +183,7 @@ fn check_system(rep: &mut Report, seed: u64, index: u64, solver_seed: u64, tier:
     }
     // pdr (bit-vector systems only: array states are todo!() in pdr)
     let bv_only = spec.states.iter().all(|s| matches!(s.ty, crate::refsmt::Ty::BV(_)));
-    if bv_only {
+    if bv_only && !probe {
         let out = run_pdr(&spec, PROFILES[0], index % 2 == 0, 60);
         judge(rep, p, &spec, index, solver_seed, "pdr", &format!("z3/check-sat-assuming;cores={}", index % 2 != 0), out, depth);
     }
@@ -188,6 +194,14 @@ pub fn run(tier: Tier, seed: u64, replay: Option<serde_json::Value>) -> i32 {
     let n = tier.pick(200u64, 4000u64);
     let mut indices: Vec<u64> = (0..n).collect();
     let mut solver_seeds: Vec<u64> = tier.pick(vec![1, 2], vec![1, 2, 3]);
+    for pi in 0..c02::probe_count() {
+        if pi % 2 == 0 || pi % 8 == 1 {
+            indices.push(c02::PROBE_BASE + pi);
+            if tier == Tier::Thorough {
+                indices.push(c02::PROBE_BASE + 1000 + pi);
+            }
+        }
+    }
     if let Some(r) = &replay {
         rep.write_files = false;
         indices = r["replay"]["system"]["index"].as_u64().map(|i| vec![i]).unwrap_or_default();
@@ -202,7 +216,7 @@ pub fn run(tier: Tier, seed: u64, replay: Option<serde_json::Value>) -> i32 {
                     let mut p = Proc::new(Which::Z3New, 20_000);
                     for &i in chunk {
                         // quick tier: the second solver seed on every other system
-                        if *ss > 1 && tier == Tier::Quick && i % 2 == 1 {
+                        if *ss > 1 && tier == Tier::Quick && (i % 2 == 1 || i >= c02::PROBE_BASE) {
                             continue;
                         }
                         check_system(&mut r, seed, i, *ss, tier, &mut p);
@@ -224,7 +238,7 @@ pub fn run(tier: Tier, seed: u64, replay: Option<serde_json::Value>) -> i32 {
         }
     }
     live::kill_stray_solvers(0.0);
-    rep.extra.insert("bounds".into(), json!({"generated_systems": n, "failing_within": tier.pick(5, 9), "profiles": PROFILES.iter().map(|p| p.name()).collect::<Vec<_>>(), "modes": ["joint", "individual"],
+    rep.extra.insert("bounds".into(), json!({"generated_systems": n, "operator_probes": "the probes of C02 (complete function tables; safe variants must not produce a witness, unsafe variants must produce a valid one)", "failing_within": tier.pick(5, 9), "profiles": PROFILES.iter().map(|p| p.name()).collect::<Vec<_>>(), "modes": ["joint", "individual"],
         "pdr": "z3/check-sat-assuming, generalisation on/off alternating, bit-vector systems", "solver_seeds": solver_seeds,
         "every_model_quantifier": "enumerated: 2 solvers x seeds (z3 and cvc5 choose different models and print arrays differently)"}));
     rep.extra.insert("functions_encoded".into(), json!(["mc::bmc get_witness", "mc::get_smt_value", "SmtLibSolverCtx::get_value / parse_get_value_response", "mc::pdr BMC fall-back"]));
